@@ -100,19 +100,25 @@ func Root() string {
 
 func loadKnown() {
 	knownSet = map[string]Finding{}
-	b, err := os.ReadFile(filepath.Join(Root(), "known_findings.json"))
-	if err != nil {
-		return
-	}
-	var f struct {
-		Findings []Finding `json:"findings"`
-	}
-	if err := json.Unmarshal(b, &f); err != nil {
-		panic("known_findings.json: " + err.Error())
-	}
-	for _, e := range f.Findings {
-		if e.Status == "known" {
-			knownSet[e.Key] = e
+	files := []string{filepath.Join(Root(), "known_findings.json")}
+	// work-in-progress entries proposed by a check author, consolidated into known_findings.json before release
+	more, _ := filepath.Glob(filepath.Join(Root(), "known_findings.d", "*.json"))
+	files = append(files, more...)
+	for _, file := range files {
+		b, err := os.ReadFile(file)
+		if err != nil {
+			continue
+		}
+		var f struct {
+			Findings []Finding `json:"findings"`
+		}
+		if err := json.Unmarshal(b, &f); err != nil {
+			panic(file + ": " + err.Error())
+		}
+		for _, e := range f.Findings {
+			if e.Status == "known" {
+				knownSet[e.Key] = e
+			}
 		}
 	}
 }
